@@ -297,3 +297,111 @@ Proof.
   destruct Hin as [Hin Hf]. apply in_flat_map in Hin. destruct Hin as ([path t] & Hi & Hp).
   exists path, t. cbn [fst snd] in Hp. apply list_files_exact in Hp. auto.
 Qed.
+
+(* ---------- every selected file is listed exactly once ---------- *)
+Definition nsl (n : str) : Prop := Forall (fun x => x <> SL) n.
+
+(* entry names contain no separator and are distinct within a directory *)
+Fixpoint uniq_tree (t : tree) : Prop :=
+  match t with
+  | File n => nsl n
+  | Dir n ch =>
+      nsl n /\ NoDup (map tname ch) /\
+      (fix all (l : list tree) : Prop :=
+         match l with [] => True | c :: l' => uniq_tree c /\ all l' end) ch
+  end.
+
+Lemma uniq_children n ch : uniq_tree (Dir n ch) -> NoDup (map tname ch) /\ Forall uniq_tree ch.
+Proof.
+  cbn [uniq_tree]. intros (_ & Hnd & Hall). split; [exact Hnd|].
+  induction ch as [|c ch IH]; [constructor|]. destruct Hall as [Hc Hall]. constructor; [exact Hc|].
+  apply IH; [inversion Hnd; assumption|exact Hall].
+Qed.
+
+Lemma uniq_name t : uniq_tree t -> nsl (tname t).
+Proof. destruct t; cbn [uniq_tree tname]; [auto|intros (H & _); exact H]. Qed.
+
+Definition sep_or_end (rest : str) : Prop := rest = [] \/ exists r, rest = SL :: r.
+
+Lemma nsl_prefix_eq n1 : forall n2 r1 r2, nsl n1 -> nsl n2 -> sep_or_end r1 -> sep_or_end r2 ->
+  n1 ++ r1 = n2 ++ r2 -> n1 = n2.
+Proof.
+  induction n1 as [|x n1 IH]; intros n2 r1 r2 H1 H2 Hr1 Hr2 E.
+  - destruct n2 as [|y n2]; [reflexivity|]. cbn [app] in E.
+    apply Forall_cons_iff in H2. destruct H2 as [Hy _].
+    destruct Hr1 as [Hr1|(r & Hr1)]; rewrite Hr1 in E; [discriminate|]. injection E as E _. congruence.
+  - apply Forall_cons_iff in H1. destruct H1 as [Hx H1']. destruct n2 as [|y n2].
+    + cbn [app] in E. destruct Hr2 as [Hr2|(r & Hr2)]; rewrite Hr2 in E; [discriminate|]. injection E as E _. congruence.
+    + cbn [app] in E. injection E as Exy E. rewrite Exy. f_equal.
+      apply Forall_cons_iff in H2. destruct H2 as [_ H2']. apply (IH n2 r1 r2); assumption.
+Qed.
+
+Section Once.
+  Variable ign : str -> bool -> bool.
+  Variable acc : str -> bool.
+
+  Lemma walk_prefix t : forall path p, In p (walk ign acc path t) -> exists rest, p = path ++ rest /\ sep_or_end rest.
+  Proof.
+    induction t as [n|n ch IH] using tree_ind'; intros path p H.
+    - rewrite walk_file in H. destruct (ign path false); [contradiction|]. destruct H as [<-|[]].
+      exists []. rewrite app_nil_r. split; [reflexivity|left; reflexivity].
+    - rewrite walk_dir in H. destruct (ign path false); [contradiction|].
+      apply in_flat_map in H. destruct H as (c & Hc & Hp). rewrite Forall_forall in IH.
+      unfold entry in Hp. destruct c as [cn|cn cch]; cbn [tname] in Hp.
+      + destruct (acc (path ++ SL :: cn) && negb (ign (path ++ SL :: cn) false)); [|contradiction].
+        destruct Hp as [<-|[]]. exists (SL :: cn). split; [reflexivity|right; eexists; reflexivity].
+      + destruct (ign (path ++ SL :: cn) true); [contradiction|].
+        destruct (IH _ Hc _ _ Hp) as (rest & -> & _). exists (SL :: cn ++ rest).
+        rewrite <- app_assoc. split; [reflexivity|right; eexists; reflexivity].
+  Qed.
+
+  Lemma entry_prefix path c p : In p (entry ign acc path c) ->
+    exists rest, p = path ++ SL :: tname c ++ rest /\ sep_or_end rest.
+  Proof.
+    unfold entry. destruct c as [cn|cn cch]; cbn [tname].
+    - destruct (acc (path ++ SL :: cn) && negb (ign (path ++ SL :: cn) false)); [|contradiction].
+      intros [<-|[]]. exists []. rewrite app_nil_r. split; [reflexivity|left; reflexivity].
+    - destruct (ign (path ++ SL :: cn) true); [contradiction|]. intros H.
+      destruct (walk_prefix _ _ _ H) as (rest & -> & Hr). exists rest.
+      rewrite <- app_assoc. split; [reflexivity|exact Hr].
+  Qed.
+
+  Lemma NoDup_app_disjoint {A} (a b : list A) : NoDup a -> NoDup b -> (forall x, In x a -> ~ In x b) -> NoDup (a ++ b).
+  Proof.
+    induction 1 as [|x a Hx Ha IH]; intros Hb Hd; [exact Hb|]. cbn [app]. constructor.
+    - intros Hin. apply in_app_or in Hin. destruct Hin as [Hin|Hin]; [contradiction|].
+      apply (Hd x); [left; reflexivity|exact Hin].
+    - apply IH; [exact Hb|]. intros y Hy. apply Hd. right. exact Hy.
+  Qed.
+
+  Lemma walk_nodup t : uniq_tree t -> forall path, NoDup (walk ign acc path t).
+  Proof.
+    induction t as [n|n ch IH] using tree_ind'; intros Hu path.
+    - rewrite walk_file. destruct (ign path false); [constructor|]. constructor; [intros []|constructor].
+    - rewrite walk_dir. destruct (ign path false); [constructor|].
+      destruct (uniq_children n ch Hu) as [Hnd Hall]. clear Hu.
+      induction ch as [|c ch IHch]; [constructor|].
+      inversion IH as [|? ? IHc IHrest]; subst. inversion Hall as [|? ? Hc Hall']; subst.
+      cbn [map] in Hnd. inversion Hnd as [|? ? Hnotin Hnd']; subst.
+      cbn [flat_map]. apply NoDup_app_disjoint.
+      + unfold entry. destruct c as [cn|cn cch]; cbn [tname].
+        * destruct (acc (path ++ SL :: cn) && negb (ign (path ++ SL :: cn) false)); [|constructor].
+          constructor; [intros []|constructor].
+        * destruct (ign (path ++ SL :: cn) true); [constructor|]. apply IHc. exact Hc.
+      + apply IHch; assumption.
+      + intros p Hp1 Hp2. apply in_flat_map in Hp2. destruct Hp2 as (c' & Hc' & Hp2).
+        destruct (entry_prefix _ _ _ Hp1) as (r1 & E1 & Hr1).
+        destruct (entry_prefix _ _ _ Hp2) as (r2 & E2 & Hr2).
+        rewrite E1 in E2. apply app_inv_head in E2. injection E2 as E2.
+        assert (Hn : tname c = tname c').
+        { apply (nsl_prefix_eq _ _ r1 r2); [apply uniq_name; exact Hc| |exact Hr1|exact Hr2|exact E2].
+          apply uniq_name. rewrite Forall_forall in Hall'. apply Hall'. exact Hc'. }
+        apply Hnotin. rewrite Hn. apply in_map. exact Hc'.
+  Qed.
+End Once.
+
+Theorem list_files_nodup ign acc path t : uniq_tree t -> NoDup (list_files ign acc path t).
+Proof.
+  intros Hu. unfold list_files. eapply Permutation_NoDup; [apply Permutation_sym, sort_perm|].
+  apply walk_nodup. exact Hu.
+Qed.
